@@ -40,3 +40,9 @@ class Digest:
 
     def hexdigest(self):
         return self._h.hexdigest()
+
+    def restart(self):
+        """digest so far; hashing starts afresh (states / windows keep accumulating)"""
+        d = self._h.hexdigest()
+        self._h = hashlib.sha256()
+        return d
